@@ -221,7 +221,9 @@ def index_variants(tier):
     d = lambda s: np.datetime64(s)
     db = I((d('2020-01-01'), d('2020-01-02')), 'datetime64[D]', cls='IndexDate')
     out += [db, rep(db, cls='Index'), rep(db, labels=(d('2020-01-01'), d('2020-01-03'))),
-            rep(db, cls='IndexDateGO'), rep(db, name='n')]
+            rep(db, cls='IndexDateGO'), rep(db, name='n'),
+            # the same instants held at another resolution
+            rep(db, dtype='datetime64[s]', cls='IndexSecond'), rep(db, dtype='datetime64[ns]', cls='IndexNanosecond')]
     if tier == 'thorough':
         fb = I((1.5, 2.5), 'float64')
         out += [fb, rep(fb, labels=(1.5, 3.5)), rep(fb, dtype='object'), rep(fb, dtype='float32'),
@@ -247,6 +249,7 @@ def ih_variants(tier):
     # grow-only twins whose cached arrays are STALE when compared: arrays built, then grown to the same labels (or to other labels), nothing read since
     out.append(rep(base, share='realised'))      # arrays already built when compared (the others are compared before any array is built)
     out.append(rep(base, cls='IndexHierarchyGO', share='go-stale-cache'))
+    out.append(rep(base, cls='IndexHierarchyGO', share='go-copy-then-source-grew'))    # a copy of a grow-only hierarchy whose source grew afterwards
     out.append(rep(base, cls='IndexHierarchyGO', labels=(('a', 1), ('a', 2), ('b', 1), ('b', 3)), share='go-stale-cache'))
     out.append(rep(base, route='product'))
     out.append(rep(base, route='product', name='n'))
@@ -272,6 +275,10 @@ def series_variants(tier):
     out.append(rep(base, name='shared', share='rename'))
     out.append(rep(base, index=I(('a', 'b', 'c'), '<U1', name='shared-ix'), share='index-rename'))
     out.append(rep(base, cls='SeriesHE'))
+    # labelled by the same instants at day / second / nanosecond resolution (equal by ==, so the hashes must agree)
+    dd_ = lambda s_: np.datetime64(s_)
+    dix = I((dd_('2020-01-01'), dd_('2020-01-02'), dd_('2020-01-03')), 'datetime64[D]', cls='IndexDate')
+    out += [rep(base, index=dix), rep(base, index=rep(dix, dtype='datetime64[s]', cls='IndexSecond')), rep(base, index=rep(dix, dtype='datetime64[ns]', cls='IndexNanosecond'))]
     # two views into ONE parent buffer that start at the same address and differ in stride: the first row and the first column of a square block
     sq_ix = I(('a', 'b', 'c'), '<U1')
     out.append(S((1, 2, 3), 'int64', sq_ix, name='a') | {'share': 'square-row'})
@@ -327,6 +334,9 @@ def frame_variants(tier, cls='Frame'):
     out.append(rep(base, name=None))
     out.append(rep(base, name='shared', share='rename'))
     out.append(rep(base, index=I(('r0', 'r1'), '<U2', name='shared-ix'), share='index-rename'))
+    dd_ = lambda s_: np.datetime64(s_)
+    dix2 = I((dd_('2020-01-01'), dd_('2020-01-02')), 'datetime64[D]', cls='IndexDate')
+    out += [rep(base, index=dix2), rep(base, index=rep(dix2, dtype='datetime64[s]', cls='IndexSecond')), rep(base, index=rep(dix2, dtype='datetime64[ns]', cls='IndexNanosecond'))]
     # two views of ONE read-only 2-D array that start at the same address and step differently (rows 0,1 and rows 0,2)
     cx3 = I(('a', 'b', 'c'), '<U1')
     out.append(F((('int64', (0, 3)), ('int64', (1, 4)), ('int64', (2, 5))), ix, cx3, name='n', cls=cls, layout='single2d') | {'share': 'strided-a'})
@@ -447,6 +457,13 @@ def run_case(case, ctx):
             o_ = build(d)
             o_.values
             objs.append(o_)
+        elif sh == 'go-copy-then-source-grew':
+            src_ = sf.IndexHierarchyGO.from_labels(d['labels'], name=d['name'])
+            src_.values
+            cp_ = src_.copy()
+            src_.append((d['labels'][-1][0], 99))      # under an outer label that exists
+            _CACHE.setdefault('keepalive', []).append(src_)
+            objs.append(cp_)
         elif sh == 'go-stale-cache':
             g = sf.IndexHierarchyGO.from_labels(d['labels'][:-1], name=d['name'])
             g.values                      # the cache now describes three labels
